@@ -361,6 +361,7 @@ def compare(rec, cfg, pts):
     except Exception as e:
         return [('setup of a legal configuration raised %s' % type(e).__name__, 'setup succeeds', str(e)[:300], 0)], {}
     info = {}
+    spars0 = {}
     for ip, pt in enumerate(pts):
         ey, eJ, mag = expected(rec, pt, ysh)
         tol = RTOL * mag
@@ -371,11 +372,17 @@ def compare(rec, cfg, pts):
             break
         if ip == 0:
             info = {'colors': o['colors'], 'cls': {v: o['meta'].get(v, {}).get('cls') for v in names}}
+            spars0 = {v: o['meta'].get(v, {}).get('sparsity') for v in names}
+        elif o['colors'] is not None:
+            # the coloring keeps the sparsity sampled at the first point: is an entry that was zero there nonzero here?
+            for v in names:
+                if spars0.get(v) is not None:
+                    nzr, nzc = np.nonzero(np.abs(eJ[v]) > tol)
+                    if not set(zip(nzr.tolist(), nzc.tolist())) <= set(zip(spars0[v][0], spars0[v][1])):
+                        info['stale'] = ip
         if tuple(o['yshape']) != tuple(ysh):
             fails.append(('output shape', list(ysh), list(o['yshape']), ip))
             break
-        if not np.all(np.abs(o['y'] - ey) <= tol * np.maximum(1.0, np.abs(ey)) / max(1.0, mag) + RTOL * np.abs(ey) + tol * 0):
-            pass
         if not np.all(np.abs(o['y'] - ey) <= tol):
             fails.append(('output y differs from the tree evaluated with NumPy', ey, o['y'], ip))
         for v in names:
@@ -496,8 +503,9 @@ def enumerate_trees(ctx, un, bins, depth, ops, workers=None):
 
 def simulate_trees(ctx, un, bins, depth, ops, num, seed, timeout, workers=4):
     cfg = write_cfg(ctx, 'ExprSim.cfg', un, bins, depth, ops, pows='PowExpsWide')
-    r = ctx.tlc_run('mech/Expr', cfg, simulate='num=%d' % num, depth=4 * ops + 8, seed=seed, workers=workers,
-                    timeout=timeout, heap='4g')
+    # -simulate num= is per worker
+    r = ctx.tlc_run('mech/Expr', cfg, simulate='num=%d' % max(1, num // workers), depth=4 * ops + 8, seed=seed,
+                    workers=workers, timeout=timeout, heap='4g')
     if r.violated or r.assume_false or (r.error and 'Finished in' not in r.out):
         raise MachineryError('TLC simulation failed on Expr:\n' + r.tail(40))
     r.out = r.out[:r.out.rfind('\n') + 1]
@@ -513,6 +521,31 @@ def simulate_trees(ctx, un, bins, depth, ops, num, seed, timeout, workers=4):
     return r, uniq
 
 
+def vacuity_guard(recs):
+    """the implication-shaped laws of Expr.tla must have had true antecedents in this run"""
+    n = {'algebraic (DualLaw)': 0, 'root add/sub/neg (LinearLaw)': 0, 'root mul/div (ProductLaw)': 0,
+         'root un/pow (ChainLaw)': 0, 'variable absent (ZeroLaw)': 0, 'with domain constraints': 0}
+    alg = {'add', 'sub', 'mul', 'div', 'maximum', 'minimum', 'abs', 'pow', 'neg'}
+    for rec in recs:
+        e = rec['e']
+        if tree_funcs(e) <= alg and rec['depth'] <= 2:
+            n['algebraic (DualLaw)'] += 1
+        if (e['t'] == 'bin' and e['f'] in ('add', 'sub')) or e['t'] == 'neg':
+            n['root add/sub/neg (LinearLaw)'] += 1
+        if e['t'] == 'bin' and e['f'] in ('mul', 'div'):
+            n['root mul/div (ProductLaw)'] += 1
+        if e['t'] in ('un', 'pow'):
+            n['root un/pow (ChainLaw)'] += 1
+        if len(rec['vars']) < 2:
+            n['variable absent (ZeroLaw)'] += 1
+        if rec['dom']:
+            n['with domain constraints'] += 1
+    zero = [k for k, v in n.items() if v == 0]
+    if zero:
+        raise MachineryError('vacuous: no exported tree exercises %s' % zero)
+    return n
+
+
 def has_branch(rec):
     return bool(tree_funcs(rec['e']) & {'maximum', 'minimum'})
 
@@ -521,6 +554,7 @@ def pred_stale_sparsity(scn, info):
     """automatic coloring keeps the sparsity found at the first point: an entry of max/min that is zero there stays zero"""
     cfg = scn.get('cfg', {})
     return (bool(scn.get('branch')) and cfg.get('col') and not cfg.get('hd') and scn.get('point', 0) > 0
+            and scn.get('stale_sparsity_at') == scn.get('point')
             and any(s in ('v', 'm') for s in cfg.get('shapes', [])))
 
 
@@ -553,13 +587,14 @@ def run(ctx):
     tw = int(os.environ.get('VERIF_TLC_WORKERS', '0') or 0) or None
     # (1) exhaustive: every tree with at most 2 operator nodes (depth <= 2) over the alphabet
     r, recs = enumerate_trees(ctx, UN_QUICK if quick else UN_ALL, BIN_ALL, 2, 2, workers=tw)
-    ctx.require_actions([]) if False else None
     nexh = len(recs)
     # (2) random deeper trees
     if quick:
-        rs_, sim = simulate_trees(ctx, UN_ALL, BIN_ALL, 3, 4, 600, ctx.seed + 1, timeout=40, workers=tw or 4)
+        rs_, sim = simulate_trees(ctx, UN_ALL, BIN_ALL, 3, 4, 700, ctx.seed + 1, timeout=60, workers=min(tw or 4, 4))
     else:
-        rs_, sim = simulate_trees(ctx, UN_ALL, BIN_ALL, 4, 6, 6000, ctx.seed + 1, timeout=240, workers=tw or 8)
+        rs_, sim = simulate_trees(ctx, UN_ALL, BIN_ALL, 4, 6, 12000, ctx.seed + 1, timeout=400, workers=tw or 8)
+    sim = [x for x in sim if x['ops'] >= 3]           # the smaller ones are in the exhaustive set
+    vacuity_guard(recs + sim)
     ctx.extra['trees_exhaustive'] = nexh
     ctx.extra['trees_simulated'] = len(sim)
     recs = recs + sim
@@ -568,7 +603,7 @@ def run(ctx):
     _RECS = recs
     rnd = random.Random(ctx.seed)
     allcfg = {1: configs_for(1), 2: configs_for(2)}
-    per_tree = (4 if quick else 10)
+    per_tree = (3 if quick else 10)
     jobs = []
     for i, rec in enumerate(recs):
         L = allcfg[len(rec['vars'])]
@@ -579,6 +614,7 @@ def run(ctx):
     chunks = [c for c in split(jobs, nproc * 8) if c]
     res = [x for rs in pmap(_worker, chunks, nproc=nproc) for x in rs]
     nrun = nskip = npoints = 0
+    classes = {}
     skipped_trees, run_trees = set(), set()
     covered = set()
     import numpy as np
@@ -598,15 +634,17 @@ def run(ctx):
             ctx.note_nontrivial('%d/%s' % (o['i'], json.dumps(cfg, sort_keys=True)))
         for f in o['fails'][:1]:
             scn = {'expr': 'y = ' + render(rec['e'], cfg['style']), 'cfg': cfg, 'pts': o['pts'], 'point': f[3],
-                   'branch': has_branch(rec), 'rec': {k: rec[k] for k in ('e', 'd', 'dom', 'vars')}}
+                   'branch': has_branch(rec), 'stale_sparsity_at': o['info'].get('stale'), 'rec': {k: rec[k] for k in ('e', 'd', 'dom', 'vars')}}
             pts = [{v: np.array(a, dtype=float) for v, a in pt.items()} for pt in o['pts']]
+            cl = 'C14-coloring-stale-sparsity' if pred_stale_sparsity(scn, {}) else f[0]
+            classes[cl] = classes.get(cl, 0) + 1
             ctx.violation(scn, f[1], f[2], f[0], snippet=snippet(rec, cfg, pts))
     if nrun == 0:
         raise MachineryError('no scenario was executed')
     ctx.impl = nrun
     ctx.evaluations = npoints
     ctx.exhaustive = False
-    ctx.extra.update({'scenarios_skipped_infeasible_domain': nskip,
+    ctx.extra.update({'failure_classes': classes, 'scenarios_skipped_infeasible_domain': nskip,
                       'trees_without_any_feasible_point': len(skipped_trees - run_trees),
                       'trees_replayed': len(run_trees), 'option_combinations_covered': len(covered),
                       'option_combinations_legal': len({(tuple(c['shapes']), c['decl'], c['hd'], c['col'], c['sbc'])
